@@ -97,6 +97,13 @@ Definition type_text (n : N) : str :=
 Definition sp : str := [32%N].
 Definition cat (l : list str) : str := concat l.
 
+(** the characters Display for Expr::UnaryOp tests for: "+-*/<>=~!@#%^&|?" *)
+Definition is_opchar (c : N) : bool :=
+  existsb (N.eqb c) [43; 45; 42; 47; 60; 62; 61; 126; 33; 64; 35; 37; 94; 38; 124; 63]%N.
+Definition starts_with_opchar (s : str) : bool := match s with c :: _ => is_opchar c | [] => false end.
+Fixpoint ends_with_bang (s : str) : bool :=
+  match s with [] => false | [c] => (c =? 33)%N | _ :: r => ends_with_bang r end.
+
 Section PP.
   (** [op_text k]: what [Display for BinaryOperator / UnaryOperator] prints for the operator
       made from token key [k] in this dialect (generated from the running crate) *)
@@ -129,20 +136,16 @@ Section PP.
     | EAtom true n => cat [s2l "'"; str_payload n; s2l "'"]
     | ENested x => cat [s2l "("; pp x; s2l ")"]
     | ETuple l => cat [s2l "("; commas l; s2l ")"]
-    | EPre k x =>                                          (* "{op}{expr}"; "{op} {expr}" when the operand
-                                                              starts with a symbolic prefix operator itself *)
-        match x with
-        | EPre _ _ => cat [op_text k; sp; pp x]
-        | _ => op_text k ++ pp x
-        end
+    | EPre k x =>                       (* "{op}{operand}", "{op} {operand}" when the operand's text
+                                           begins with an operator character *)
+        let s := pp x in
+        if starts_with_opchar s then cat [op_text k; sp; s] else op_text k ++ s
     | ENot x => s2l "NOT " ++ pp x
     | EBin k l r => cat [pp l; sp; op_text k; sp; pp r]
     | EAnyAll k q l r => cat [pp l; sp; op_text k; sp; quant_text q; s2l "("; pp r; s2l ")"]
-    | EPostfix x =>                                        (* "{expr}{op}"; "{expr} {op}" after another postfix ! *)
-        match x with
-        | EPostfix _ => pp x ++ s2l " !"
-        | _ => pp x ++ s2l "!"
-        end
+    | EPostfix x =>                     (* "{operand}{op}", "{operand} {op}" when the operand's text ends with ! *)
+        let s := pp x in
+        if ends_with_bang s then s ++ s2l " !" else s ++ s2l "!"
     | EIs neg w x => pp x ++ is_text neg w
     | EIsDF neg l r => cat [pp l; s2l " IS "; not_text neg; s2l "DISTINCT FROM "; pp r]
     | EAtTz l r => cat [pp l; s2l " AT TIME ZONE "; pp r]
